@@ -264,3 +264,13 @@ def repro(c):
     elif container == 'tuple':
         s = 'tuple(%s)' % s
     return 'netaddr.spanning_cidr(%s)' % s
+
+
+def shrink(c, fails):
+    """drop sequence elements while spanning_cidr still violates the property (at least two are kept)"""
+    a = c.args
+    if a[0] != 'span':
+        return c
+    _, items, container = a
+    red = common.shrink_seq(items, lambda l: len(l) >= 1 and fails(Case(None, c.tag, ('span', tuple(l), container))))
+    return Case(None, c.tag, ('span', tuple(red), container))
